@@ -813,6 +813,17 @@ class LanguageGraph():
                 super_asset.sub_assets.append(asset)
                 asset.super_assets.append(super_asset)
 
+        # Associations are collected per asset below, which never looks at an
+        # association whose two ends are both unknown assets.
+        for association in self._lang_spec['associations']:
+            for side in ('leftAsset', 'rightAsset'):
+                if not any(asset.name == association[side] \
+                        for asset in self.assets):
+                    msg = 'Asset "%s" of association "%s" not found!'
+                    logger.error(msg, association[side], association["name"])
+                    raise LanguageGraphAssociationError(
+                        msg % (association[side], association["name"]))
+
         # Generate all of the association nodes of the language graph.
         for asset in self.assets:
             logger.debug(
